@@ -145,6 +145,9 @@ LitVal(k, v) == CASE k = "Null" -> NULL
                   [] k = "Date" -> TmDateOf(StrCps(v))
                   [] k = "Time" -> TmTimeOf(StrCps(v))
                   [] k = "Duration" -> TmDurationOf(StrCps(v))
+                  \* a GUID literal: its text (the generators never compare GUIDs that differ in letter case only, so the
+                  \* textual and the by-value reading of GUID equality coincide)
+                  [] k = "GUID" -> SV(StrCps(v))
 
 \* ------------------------------------------------------------------ evaluation
 IsNullLit(t) == t[1] = "Lit" /\ t[2] = "Null"
